@@ -19,9 +19,17 @@ theorem tie_default_file : Facts.defaultConfigInterface.lookup "OutputFile" = so
 
 /-! ### path resolution -/
 
-/-- an absolute output:file is used as it is; a relative one is resolved against the declaring file's directory -/
+/-- an absolute output:file is used in clean form (two spellings of one file are one file: D35); a relative one is resolved
+against the declaring file's directory -/
 theorem C15_path (declFile f : S) :
-    outputPath declFile f = if isAbs f then f else join2 (dir declFile) f := rfl
+    outputPath declFile f = if isAbs f then clean f else join2 (dir declFile) f := rfl
+
+/-- two spellings of one absolute file select one output path -/
+theorem C15_abs_spellings (d1 d2 f g : S) (hf : isAbs f = true) (hg : isAbs g = true) (h : clean f = clean g) :
+    outputPath d1 f = outputPath d2 g := by
+  simp [outputPath, hf, hg, h]
+
+example : outputPath "/w/a/x.go".toList "/w/a/../out/gen.go".toList = outputPath "/w/a/y.go".toList "../out/gen.go".toList := by decide
 
 /-- defaults: ./generated/generated.go for interfaces, <file>.gen.go next to a variables block -/
 theorem C15_default_paths (iface varFile pn pp : S) :
@@ -248,9 +256,12 @@ example : NormalAbs "/w/mod".toList ∧ isAbs "../x/./y.go".toList = false ∧
 /-- `filepath.Clean` is idempotent (a documented law of Go's `path.Clean`), for every path -/
 theorem C15_clean_idem (p : S) : clean (clean p) = clean p := clean_idem p
 
-/-- a relative output:file is always resolved to a path in canonical form (a fixed point of `filepath.Clean`) -/
-theorem C15_output_path_canonical (declFile f : S) (hf : isAbs f = false) :
-    clean (outputPath declFile f) = outputPath declFile f := outputPath_clean declFile f hf
+/-- an output:file is always resolved to a path in canonical form (a fixed point of `filepath.Clean`) -/
+theorem C15_output_path_canonical (declFile f : S) :
+    clean (outputPath declFile f) = outputPath declFile f := by
+  cases hf : isAbs f with
+  | false => exact outputPath_clean declFile f hf
+  | true => simp only [outputPath, hf, if_true]; exact clean_idem f
 
 example : isAbs "a/../../b//c/.".toList = false ∧
     outputPath "x/../y/in.go".toList "a/../../b//c/.".toList = "b/c".toList := by decide
